@@ -53,3 +53,22 @@ package morton
 //@   prelude morton
 //@   requires x <= 0x7FFFFFFF && y <= 0x7FFFFFFF && i <= 3
 //@   ensures interleave(x*2 + (i & 1), y*2 + ((i & 2) >> 1)) == (interleave(x, y) << 2) | i
+//@
+//@ lemma[C17,C02] children_arith(x BV64, y BV64, dx BV64, dy BV64)
+//@   mode bv
+//@   prelude morton
+//@   requires x <= 0x7FFFFFFF && y <= 0x7FFFFFFF && dx <= 1 && dy <= 1
+//@   ensures interleave(x * 2 + dx, y * 2 + dy) == interleave(x, y) * 4 + dx + dy * 2
+//@   ensures interleave(x, y) <= 0x3FFFFFFFFFFFFFFF
+//@
+//@ lemma[C17,C02] small_key(z BV64)
+//@   mode bv
+//@   prelude morton
+//@   requires z <= 0x3FFFFFFFFFFFFFFF
+//@   ensures even_bits(z) <= 0x7FFFFFFF && even_bits(z >> 1) <= 0x7FFFFFFF
+//@
+//@ lemma[C17,C02] low_bits(x BV64, y BV64)
+//@   mode bv
+//@   prelude morton
+//@   requires x <= 0xFFFFFFFF && y <= 0xFFFFFFFF
+//@   ensures interleave(x, y) % 2 == x % 2 && (interleave(x, y) / 2) % 2 == y % 2
